@@ -51,6 +51,55 @@ def opcodeLByVMem (m : Mem) : BitVec 32 :=
 def addPrefixBySize (opcode : BitVec 32) (size : Nat) : BitVec 32 :=
   if size % 16 == 2 then opcode ||| 0x200000#32 else if size % 16 == 8 then opcode ||| kW else opcode
 
+
+def isInt8of64 (v : BitVec 64) : Bool := (0xFFFFFFFFFFFFFF80#64).sle v && v.sle 0x7F#64
+def signExtendInt32 (v : BitVec 64) : BitVec 64 := (v.truncate 32 : BitVec 32).signExtend 64
+def isUInt32of64 (v : BitVec 64) : Bool := v ≤ 0xFFFFFFFF#64
+
+/-- `Opcode::add_arith_by_size` -/
+def addArithBySize (opcode : BitVec 32) (size : Nat) : BitVec 32 :=
+  if size % 16 == 2 then opcode ||| (1#32 ||| kPP_66) else if size % 16 == 4 then opcode ||| 1#32
+  else if size % 16 == 8 then opcode ||| (1#32 ||| kW) else opcode
+
+def Op.isGp8Hi : Op → Bool | .reg 3 _ => true | _ => false
+def Op.isSReg : Op → Bool | .reg 25 _ => true | _ => false
+
+/-- `FIXUP_GPB(REG_OP, REG_ID)`: returns (options, id) -/
+def fixupGpb (options : BitVec 32) (o : Op) (id : BitVec 32) : BitVec 32 × BitVec 32 :=
+  if !o.isGp8Hi then ((if id ≥ 4#32 then options ||| oRex else options), id)
+  else (options ||| oInvalidRex, id + 4#32)
+
+/-- `opcode_push_sreg_table` / `opcode_pop_sreg_table` -/
+def pushSReg (s : Nat) : BitVec 32 :=
+  match s with | 1 => 0x06#32 | 2 => 0x0E#32 | 3 => 0x16#32 | 4 => 0x1E#32 | 5 => 0x1A0#32 | 6 => 0x1A8#32 | _ => 0#32
+def popSReg (s : Nat) : BitVec 32 :=
+  match s with | 1 => 0x07#32 | 3 => 0x17#32 | 4 => 0x1F#32 | 5 => 0x1A1#32 | 6 => 0x1A9#32 | _ => 0#32
+
+/-- `EmitJmpCall` + `EmitJmpCallRel` for a label bound at `pos` of the current section or an absolute target with a known base address;
+relocation / unbound-label paths answer `unmodelled`. -/
+def emitJmpCall (c : Ctx) (opcode options opReg altOp : BitVec 32) (target : Op) (isJmpOrCall : Bool) : Except Err (List Byte) := do
+  let rexB ← emitRex (extractRex opcode options)
+  let ip : Nat := c.off + rexB.length
+  let inst32 : Nat := 5 + (if opReg != 0#32 then 1 else 0) + (if (opcode &&& kMM_Mask) == kMM_0F then 1 else 0)
+  let rel32 : BitVec 32 ←
+    (match target with
+     | .label pos => Except.ok (BitVec.ofNat 32 pos - BitVec.ofNat 32 ip - BitVec.ofNat 32 inst32)
+     | .imm addr =>
+       match c.base with
+       | none => Except.error Err.unmodelled
+       | some base =>
+         let rel64 : BitVec 64 := addr - (BitVec.ofNat 64 ip + base) - BitVec.ofNat 64 inst32
+         if !c.mode64 || isInt32of64 rel64 then Except.ok (rel64.truncate 32)
+         else if !isJmpOrCall then Except.error Err.invalidDisplacement else Except.error Err.unmodelled
+     | _ => Except.error Err.invalidInstruction)
+  let d8 : BitVec 32 := rel32 + BitVec.ofNat 32 inst32 - 2#32
+  if isInt8 d8 && altOp != 0#32 && (options &&& oLongForm) == 0#32 then
+    pure (rexB ++ [altOp.truncate 8, d8.truncate 8])
+  else if opcode == 0#32 || (options &&& oShortForm) != 0#32 then .error .invalidDisplacement
+  else
+    pure (rexB ++ (if (opcode &&& kMM_Mask) != 0#32 then [0x0F#8] else []) ++ [opcode.truncate 8] ++
+          (if opReg != 0#32 then [(encodeMod 3#32 opReg 0#32).truncate 8] else []) ++ le32 rel32)
+
 structure Row where
   id : Nat
   encoding : Nat
@@ -165,7 +214,159 @@ def dispatch (c : Ctx) (r : Row) (options : BitVec 32) (o0 o1 o2 o3 : Op) : Exce
       let l := let a := opcodeLByVMem (memOf o1); let b := opcodeLBySize (o0.rmSize ||| o2.rmSize); if a ≥ b then a else b
       emitVexEvexM c (opcode ||| l) options (packRegVvvvv o0.id o2.id) (memOf o1) 0 0
     else .error .invalidInstruction
-  | _ => let _ := opReg0; .error .unmodelled
+  | 0x19 =>                                                                       -- X86Arith
+    if isign3 == RR then
+      let opc := addArithBySize opcode o0.rmSize
+      if o0.rmSize != o1.rmSize then .error .operandSizeMismatch else
+      let (opt1, rb) := if o0.rmSize == 1 then fixupGpb options o0 (r32 o0.id) else (options, r32 o0.id)
+      let (opt2, rg) := if o0.rmSize == 1 then fixupGpb opt1 o1 (r32 o1.id) else (opt1, r32 o1.id)
+      if (options &&& oModRM) == 0#32 then emitX86R opc opt2 rg rb 0 0
+      else emitX86R (opc + 2#32) opt2 rb rg 0 0
+    else if isign3 == RM then
+      let opc := addArithBySize (opcode + 2#32) o0.rmSize
+      let (opt1, rg) := if o0.rmSize == 1 then fixupGpb options o0 (r32 o0.id) else (options, r32 o0.id)
+      emitX86M c opc opt1 rg (memOf o1) 0 0
+    else if isign3 == MR then
+      let opc := addArithBySize opcode o1.rmSize
+      let (opt1, rg) := if o1.rmSize == 1 then fixupGpb options o1 (r32 o1.id) else (options, r32 o1.id)
+      emitX86M c opc opt1 rg (memOf o0) 0 0
+    else if isign3 == 1 + 4 * 8 then                                              -- Reg, Imm
+      let size := o0.rmSize
+      let rb0 := r32 o0.id
+      let imm0 := o1.immVal
+      if size == 1 then
+        let (opt1, rb) := fixupGpb options o0 rb0
+        if rb == 0#32 && (options &&& oLongForm) == 0#32 then
+          emitX86Op (((0x80#32 &&& (kPP_66 ||| kW)) ||| ((opReg0 <<< 3) ||| 0x04#32))) opt1 imm0 1
+        else emitX86R 0x80#32 opt1 opReg0 rb imm0 1
+      else
+        let opc0 : BitVec 32 := if size == 2 then 0x80#32 ||| kPP_66 else 0x80#32
+        let imm1 := if size == 4 then signExtendInt32 imm0 else imm0
+        let canT := r.id == 23 && isUInt32of64 imm1   -- Inst::kIdAnd
+        let r8 : Except Err (Nat × BitVec 32) :=
+          if size == 8 then
+            if !isInt32of64 imm1 then (if canT then .ok (4, opc0) else .error .invalidImmediate)
+            else .ok (8, opc0 ||| kW)
+          else .ok (size, opc0)
+        match r8 with
+        | .error e => .error e
+        | .ok (size, opc) =>
+          let isz0 := min size 4
+          let isz := if isInt8of64 imm1 && (options &&& oLongForm) == 0#32 then 1 else isz0
+          if rb0 == 0#32 && isz != 1 && (options &&& oLongForm) == 0#32 then
+            emitX86Op ((opc &&& (kPP_66 ||| kW)) ||| ((opReg0 <<< 3) ||| 0x05#32)) options imm1 (min size 4)
+          else emitX86R (opc + (if isz != 1 then 1#32 else 3#32)) options opReg0 rb0 imm1 isz
+    else if isign3 == 2 + 4 * 8 then                                              -- Mem, Imm
+      let msz := o0.rmSize
+      if msz == 0 then .error .ambiguousOperandSize else
+      let imm1 := if msz == 4 then signExtendInt32 o1.immVal else o1.immVal
+      let isz := if isInt8of64 imm1 && (options &&& oLongForm) == 0#32 then 1 else min msz 4
+      let opc := addPrefixBySize (0x80#32 + (if msz != 1 then (if isz != 1 then 1#32 else 3#32) else 0#32)) msz
+      emitX86M c opc options opReg0 (memOf o0) imm1 isz
+    else .error .invalidInstruction
+  | 0x37 =>                                                                       -- X86Rot
+    match o0 with
+    | .reg _ _ =>
+      let opc := addArithBySize opcode o0.rmSize
+      let (opt1, rb) := if o0.rmSize == 1 then fixupGpb options o0 (r32 o0.id) else (options, r32 o0.id)
+      if isign3 == RR then
+        if o1.id != 1 then .error .invalidInstruction else emitX86R (opc + 2#32) opt1 opReg0 rb 0 0
+      else if isign3 == 1 + 4 * 8 then
+        let iv := o1.immVal &&& 0xFF#64
+        if iv == 1#64 && (options &&& oLongForm) == 0#32 then emitX86R opc opt1 opReg0 rb iv 0
+        else emitX86R (opc - 0x10#32) opt1 opReg0 rb iv 1
+      else .error .invalidInstruction
+    | _ =>
+      if o0.rmSize == 0 then .error .ambiguousOperandSize else
+      let opc := addArithBySize opcode o0.rmSize
+      if isign3 == MR then
+        if o1.id != 1 then .error .invalidInstruction else emitX86M c (opc + 2#32) options opReg0 (memOf o0) 0 0
+      else if isign3 == 2 + 4 * 8 then
+        let iv := o1.immVal &&& 0xFF#64
+        if iv == 1#64 && (options &&& oLongForm) == 0#32 then emitX86M c opc options opReg0 (memOf o0) iv 0
+        else emitX86M c (opc - 0x10#32) options opReg0 (memOf o0) iv 1
+      else .error .invalidInstruction
+  | 0x3d =>                                                                       -- X86Test
+    if isign3 == RR then
+      if o0.rmSize != o1.rmSize then .error .operandSizeMismatch else
+      let opc := addArithBySize opcode o0.rmSize
+      let (opt1, rb) := if o0.rmSize == 1 then fixupGpb options o0 (r32 o0.id) else (options, r32 o0.id)
+      let (opt2, rg) := if o0.rmSize == 1 then fixupGpb opt1 o1 (r32 o1.id) else (opt1, r32 o1.id)
+      emitX86R opc opt2 rg rb 0 0
+    else if isign3 == MR then
+      let opc := addArithBySize opcode o1.rmSize
+      let (opt1, rg) := if o1.rmSize == 1 then fixupGpb options o1 (r32 o1.id) else (options, r32 o1.id)
+      emitX86M c opc opt1 rg (memOf o0) 0 0
+    else
+      let alt := r.altOp
+      let oreg := (alt >>> 18) &&& 7#32
+      if isign3 == 1 + 4 * 8 then
+        let opc := addArithBySize alt o0.rmSize
+        let (opt1, rb) := if o0.rmSize == 1 then fixupGpb options o0 (r32 o0.id) else (options, r32 o0.id)
+        let (iv, isz) : BitVec 64 × Nat := if o0.rmSize == 1 then (o1.immVal &&& 0xFF#64, 1) else (o1.immVal, min o0.rmSize 4)
+        if rb == 0#32 && (options &&& oLongForm) == 0#32 then
+          emitX86Op ((opc &&& (kPP_66 ||| kW)) ||| (0xA8#32 + (if o0.rmSize != 1 then 1#32 else 0#32))) opt1 iv isz
+        else emitX86R opc opt1 oreg rb iv isz
+      else if isign3 == 2 + 4 * 8 then
+        if o0.rmSize == 0 then .error .ambiguousOperandSize else
+        emitX86M c (addArithBySize alt o0.rmSize) options oreg (memOf o0) o1.immVal (min o0.rmSize 4)
+      else .error .invalidInstruction
+  | 0x21 =>                                                                       -- X86Imul (forms other than the one-operand MulDiv ones)
+    let shortOrLong (imm : BitVec 64) : BitVec 32 × Nat :=
+      let opc := addPrefixBySize 0x6B#32 o0.rmSize
+      if !isInt8of64 imm || (options &&& oLongForm) != 0#32 then (opc - 2#32, if o0.rmSize == 2 then 2 else 4) else (opc, 1)
+    if isign3 == RR + 4 * 64 then
+      let (opc, isz) := shortOrLong o2.immVal
+      emitX86R opc options (r32 o0.id) (r32 o1.id) o2.immVal isz
+    else if isign3 == RM + 4 * 64 then
+      let imm := if o0.rmSize == 4 then signExtendInt32 o2.immVal else o2.immVal
+      let (opc, isz) := shortOrLong imm
+      emitX86M c opc options (r32 o0.id) (memOf o1) imm isz
+    else if isign3 == RR then
+      if o1.rmSize == 1 then .error .unmodelled else
+      if o0.rmSize != o1.rmSize then .error .operandSizeMismatch else
+      emitX86R (addPrefixBySize 0x1AF#32 o0.rmSize) options (r32 o0.id) (r32 o1.id) 0 0
+    else if isign3 == RM then
+      if o1.rmSize == 1 then .error .unmodelled else
+      emitX86M c (addPrefixBySize 0x1AF#32 o0.rmSize) options (r32 o0.id) (memOf o1) 0 0
+    else if isign3 == 1 + 4 * 8 then
+      let imm := if o0.rmSize == 4 then signExtendInt32 o1.immVal else o1.immVal
+      let (opc, isz) := shortOrLong imm
+      emitX86R opc options (r32 o0.id) (r32 o0.id) imm isz
+    else .error .unmodelled
+  | 0x33 =>                                                                       -- X86Push
+    if isign3 == 1 then
+      if o0.isSReg then (if o0.id ≥ 7 then .error .invalidSegment else emitX86Op (pushSReg o0.id) options 0 0)
+      else if o0.rmSize < 2 then .error .invalidInstruction
+      else emitX86OpReg (r.altOp ||| (if o0.rmSize == 2 then kPP_66 else 0#32)) options (r32 o0.id) 0 0
+    else if isign3 == 4 then
+      let isz := if isInt8of64 o0.immVal && (options &&& oLongForm) == 0#32 then 1 else 4
+      emitX86Op (if isz == 1 then 0x6A#32 else 0x68#32) options o0.immVal isz
+    else if isign3 == 2 then
+      if o0.rmSize == 0 then .error .ambiguousOperandSize
+      else if o0.rmSize != 2 && o0.rmSize != (if c.mode64 then 8 else 4) then .error .invalidInstruction
+      else emitX86M c (opcode ||| (if o0.rmSize == 2 then kPP_66 else 0#32)) options opReg0 (memOf o0) 0 0
+    else .error .invalidInstruction
+  | 0x35 =>                                                                       -- X86Pop
+    if isign3 == 1 then
+      if o0.isSReg then (if o0.id == 2 || o0.id ≥ 7 then .error .invalidSegment else emitX86Op (popSReg o0.id) options 0 0)
+      else if o0.rmSize < 2 then .error .invalidInstruction
+      else emitX86OpReg (r.altOp ||| (if o0.rmSize == 2 then kPP_66 else 0#32)) options (r32 o0.id) 0 0
+    else if isign3 == 2 then
+      if o0.rmSize == 0 then .error .ambiguousOperandSize
+      else if o0.rmSize != 2 && o0.rmSize != (if c.mode64 then 8 else 4) then .error .invalidInstruction
+      else emitX86M c (opcode ||| (if o0.rmSize == 2 then kPP_66 else 0#32)) options opReg0 (memOf o0) 0 0
+    else .error .invalidInstruction
+  | 0x26 => emitJmpCall c opcode options 0#32 r.altOp o0 false                   -- X86Jcc
+  | 0x28 =>                                                                       -- X86Jmp
+    if isign3 == 1 then emitX86R (opcode ||| (if o0.rmSize == 2 then kPP_66 else 0#32)) options opReg0 (r32 o0.id) 0 0
+    else if isign3 == 2 then emitX86M c (opcode ||| (if o0.rmSize == 2 then kPP_66 else 0#32)) options opReg0 (memOf o0) 0 0
+    else emitJmpCall c 0xE9#32 options 0#32 r.altOp o0 true
+  | 0x1c =>                                                                       -- X86Call
+    if isign3 == 1 then emitX86R (opcode ||| (if o0.rmSize == 2 then kPP_66 else 0#32)) options opReg0 (r32 o0.id) 0 0
+    else if isign3 == 2 then emitX86M c (opcode ||| (if o0.rmSize == 2 then kPP_66 else 0#32)) options opReg0 (memOf o0) 0 0
+    else emitJmpCall c 0xE8#32 options 0#32 r.altOp o0 true
+  | _ => .error .unmodelled
 
 /-- `_emit` up to the encoding switch: forced options (InvalidRex in 32-bit mode), LOCK / XACQUIRE / XRELEASE / REP bytes -/
 def emitInst (mode64 : Bool) (base : Option (BitVec 64)) (off : Nat) (r : Row) (userOpts : BitVec 32) (k : Nat) (ops : List Op) :
